@@ -60,6 +60,29 @@ def _split(pos, depth):
     return rt.fin(w is None, w)
 
 
+def ob_split_types(pos: int, depth: int, t0: int, t1: int) -> bool:
+    """post: _"""
+    return rt.run(_split_types, pos, depth, t0, t1)
+
+
+def _split_types(pos, depth, t0, t1):
+    """can_split / split with explicit types for the nodes after the split."""
+    types = [t for t in C.schema.nodes.values() if not t.is_leaf and not t.is_text and not t.has_required_attrs()
+             and t is not C.schema.top_node_type]
+    if not (0 <= pos <= C.size and 1 <= depth <= 2 and 0 <= t0 < len(types) and 0 <= t1 < len(types)) or C.is_split(pos):
+        return rt.SKIP
+    if depth == 1 and t1 != 0:
+        return rt.SKIP
+    depth, t0, t1 = rt.pick(depth, 1, 2), rt.pick(t0, 0, len(types) - 1), rt.pick(t1, 0, len(types) - 1)
+    ta = [structure.NodeTypeWithAttrs(types[t0]), structure.NodeTypeWithAttrs(types[t1])][:depth]
+    if not structure.can_split(C.doc, pos, depth, ta):
+        return rt.fin(True)
+    tr = Transform(C.doc)
+    tr.split(pos, depth, ta)
+    w = fine(tr)
+    return rt.fin(w is None, w)
+
+
 def ob_join(pos: int, up: bool) -> bool:
     """post: _"""
     return rt.run(_join, pos, up)
@@ -203,6 +226,7 @@ def obligations(tier, seed):
         size = common.templates.doc(p["schema"], p["doc"]).content.size
         obs.append({"name": "split/" + tag, "fn": "ob_split", "P": p, "timeout": T})
         obs.append({"name": "join/" + tag, "fn": "ob_join", "P": p, "timeout": T})
+        obs.append({"name": "split_types/" + tag, "fn": "ob_split_types", "P": p, "timeout": T * 2})
         obs.append({"name": "insert_point/" + tag, "fn": "ob_insert_point", "P": p, "timeout": T})
         obs.append({"name": "drop_point/" + tag, "fn": "ob_drop_point", "P": p, "timeout": T})
         for lo in range(0, size + 1, 6):
